@@ -30,6 +30,18 @@ func loginAndFile(c *Ctx, b *env.Browser, user *env.IdPUser, path string) *env.R
 	return env.ParseRDP(r.Body)
 }
 
+// longName is a poorly compressible account name of n characters.
+func longName(n int) string {
+	const abc = "abcdefghijklmnopqrstuvwxyzABCDEFGHIJKLMNOPQRSTUVWXYZ0123456789._-"
+	b := make([]byte, n)
+	x := uint32(n)*2654435761 + 12345
+	for i := range b {
+		x = x*1664525 + 1013904223
+		b[i] = abc[(x>>16)%uint32(len(abc))]
+	}
+	return "u" + string(b[1:])
+}
+
 // runC15: /tokeninfo with minted, mutated, expired and cross-mode user tokens.
 func runC15(c *Ctx) {
 	cfg := webConfig(c)
@@ -44,7 +56,10 @@ func runC15(c *Ctx) {
 		return
 	}
 	// (also names with characters that have no short escape in JSON)
-	userName := []string{"alice", "bob@corp.test", "administrator", "u", "al\aice", "esc\x1bname", "del\x7fx", "v\vt", "astral\U0001F600\U000E0001x"}[c.T.Choose(9)]
+	// very short names over the token alphabet, names in decomposed Unicode spelling, and names so
+	// long that the token outgrows 511 characters
+	userName := []string{"alice", "bob@corp.test", "administrator", "u", "al\aice", "esc\x1bname", "del\x7fx", "v\vt", "astral\U0001F600\U000E0001x",
+		"e", "ey", "eyJ", "J", "re\u0301mi-o\u0308zgu\u0308r", "a\u212bngstro\u0308m\u0323\u0301", longName(170), longName(300)}[c.T.Choose(17)]
 	user := &env.IdPUser{Sub: "s-" + userName, Claims: map[string]any{"preferred_username": userName}}
 	// history: a moment earlier a different account, whose name differs from this one only in
 	// case (or extends it), got a token of its own
@@ -52,17 +67,30 @@ func runC15(c *Ctx) {
 	if c.T.Bool(1, 3) {
 		earlier = []string{strings.ToUpper(userName[:1]) + userName[1:], strings.ToUpper(userName), userName + "2"}[c.T.Choose(3)]
 		b0 := c.W.NewBrowser("b0", "10.2.0.4:50999")
-		if loginAndFile(c, b0, &env.IdPUser{Sub: "s-" + earlier, Claims: map[string]any{"preferred_username": earlier}}, "/connect") == nil {
+		if ok, cb := b0.Login("/connect", &env.IdPUser{Sub: "s-" + earlier, Claims: map[string]any{"preferred_username": earlier}}); !ok {
+			c.Infra("login failed: callback status %d body %.100q", cb.Status, cb.Body)
+			return
+		}
+		if fr := b0.Get("/connect"); !gotFile(fr) {
+			c.S.Fail("C15", "no-user-token", "no user token is minted for the signed-in user %q: the download answers %d %.80q", earlier, fr.Status, fr.Body)
 			return
 		}
 		c.S.Advance(time.Duration(c.T.Choose(90)) * time.Second)
 		c.S.Count("probe.earlier_mint_for_similar_name")
 	}
 	b := c.W.NewBrowser("b1", "10.2.0.5:51000")
-	f := loginAndFile(c, b, user, "/connect")
-	if f == nil {
+	if ok, cb := b.Login("/connect", user); !ok {
+		c.Infra("login failed: callback status %d body %.100q", cb.Status, cb.Body)
 		return
 	}
+	fr := b.Get("/connect")
+	if !gotFile(fr) {
+		// the session is authenticated and user tokens are enabled: minting one for this user is
+		// all that can have failed
+		c.S.Fail("C15", "no-user-token", "no user token is minted for the signed-in user %q: the download answers %d %.80q", userName, fr.Status, fr.Body)
+		return
+	}
+	f := env.ParseRDP(fr.Body)
 	mintedAt := time.Now()
 	parts := strings.SplitN(f.Values["username"], "||", 2)
 	if len(parts) != 2 || parts[0] != userName || strings.Count(parts[1], ".") != 4 {
@@ -74,7 +102,7 @@ func runC15(c *Ctx) {
 	// the user name cannot be read from the token text
 	for _, seg := range strings.Split(tok, ".") {
 		raw, _ := codec.UnB64(seg)
-		if len(userName) > 2 && (strings.Contains(seg, userName) || strings.Contains(string(raw), userName)) {
+		if len(userName) > 3 && (strings.Contains(seg, userName) || strings.Contains(string(raw), userName)) {
 			c.S.Fail("C15", "user-readable", "the user name %q can be read from the token text", userName)
 			return
 		}
@@ -88,7 +116,7 @@ func runC15(c *Ctx) {
 		return m
 	}
 	disclosed := func(r *env.HTTPResult) bool {
-		return strings.Contains(string(r.Body), userName) && len(userName) > 2 || strings.Contains(string(r.Body), `"sub"`)
+		return strings.Contains(string(r.Body), userName) && len(userName) > 3 || strings.Contains(string(r.Body), `"sub"`)
 	}
 	if earlier != "" {
 		// a token minted for user U yields subject U
@@ -281,18 +309,49 @@ func runC02(c *Ctx) {
 	tw.Cfg.Hosts = append(tw.Cfg.Hosts, "host-a.test:3389")
 	tw.Cfg.SmartCardAuth = c.T.Bool(1, 3)
 	jwtAT := c.T.Bool(1, 3) // the provider's access tokens are JWTs under its published keys
+	// what the provider's opaque tokens look like, how long they are, and what its userinfo
+	// answer carries besides the subject
+	style := []string{"", "", "b64pad", "vschar"}[c.T.Choose(4)]
+	bigAT := c.T.Bool(1, 8)
+	if bigAT {
+		tw.Cfg.SessionStore = "file"
+	}
+	uiClaims := c.T.Bool(1, 2)
+	tw.Cfg.SplitUserDomain = c.T.Bool(1, 4)
+	login := []string{"alice", "alice", "alice@corp.test", "Alice@CORP.test"}[c.T.Choose(4)]
 	if !BootTun(c, tw, false) {
 		return
 	}
 	c.W.IdP.JWTAccessTokens = jwtAT
+	c.W.IdP.TokenStyle = style
+	c.W.IdP.UserinfoClaims = uiClaims
+	if bigAT {
+		c.W.IdP.TokenPad = 2950 + c.T.Choose(650)
+	}
 	key := []byte(tw.Cfg.PAASigningKey)
 	p0 := tw.Plans[0]
 	ip := clientIP(p0.From)
 	// a genuine cookie through the real download flow, and a harness-minted twin
 	b := c.W.NewBrowser("b1", p0.From)
-	user := &env.IdPUser{Sub: "alice", Claims: map[string]any{"preferred_username": "alice"}}
-	f := loginAndFile(c, b, user, "/connect")
-	if f == nil {
+	user := &env.IdPUser{Sub: "alice", Claims: map[string]any{"preferred_username": login}}
+	var f *env.RDPFile
+	if bigAT {
+		ok, _ := b.Login("/connect", user)
+		c.W.IdP.TokenPad = 0
+		if !ok {
+			// a session store that cannot hold the provider's token: nothing is minted
+			c.S.Count("probe.session_too_large_for_store")
+			c.Res.Reach = true
+			return
+		}
+		r := b.Get("/connect")
+		if !gotFile(r) {
+			c.Infra("no connection file after login: %d %.100q", r.Status, r.Body)
+			return
+		}
+		f = env.ParseRDP(r.Body)
+		c.S.Count("probe.idp_access_token_of_kilobytes")
+	} else if f = loginAndFile(c, b, user, "/connect"); f == nil {
 		return
 	}
 	mintT := time.Now()
